@@ -74,6 +74,7 @@ pub fn batches(prop: &str, tier: &str) -> Vec<Batch> {
 
 pub fn def(prop: &str) -> Option<PropDef> {
     Some(match prop {
+        "DEBUG" => PropDef { id: "DEBUG", level: "other", rule: "", assumptions: vec![], must_reach: vec![], real: vec![], stub: vec![], watchdog_secs: 3 },
         "C19" => PropDef {
             id: "C19",
             level: "fault_enumeration",
